@@ -386,6 +386,7 @@ func skipString(src string, pos int) (ret int, ep int) {
 	sp += 1
 
 	ep = -1
+	closed := false
 	for sp < se {
 		c := *(*byte)(unsafe.Pointer(sp))
 		if c == '\\' {
@@ -395,13 +396,18 @@ func skipString(src string, pos int) (ret int, ep int) {
 			sp += 2
 			continue
 		}
+		if c < ' ' {
+			// control characters must be escaped
+			return -int(types.ERR_INVALID_CHAR), -1
+		}
 		sp += 1
 		if c == '"' {
+			closed = true
 			break
 		}
 	}
 
-	if sp > se {
+	if sp > se || !closed {
 		return -int(types.ERR_EOF), -1
 	}
 
